@@ -2,3 +2,12 @@
 from .types import PATH
 from .types import INT, BOOL, STR, ANY, NONE, Opt, OptT, Tup, TupT, Seq, SeqT, SetT, DictT, Obj, ObjT, POS
 from .spec import FnSpec, Family, Contract
+
+
+def implies(a, b):
+    """concrete meaning of the spec connective (symbolically: z3 Implies)"""
+    return (not a) or bool(b)
+
+
+def iff(a, b):
+    return bool(a) == bool(b)
